@@ -1,6 +1,7 @@
 //! Harness binary for the flow-narrowing cluster (C15, C41).
 mod c15;
 mod c41;
+mod interp;
 mod prog;
 mod real;
 
@@ -28,6 +29,7 @@ fn main() {
     let mut report = Report::default();
     match args.prop.as_str() {
         "C15" => c15::run(&args, &mut report),
+        "C41" => c41::run(&args, &mut report),
         other => {
             eprintln!("vh-flow: unknown property {other}");
             std::process::exit(2);
